@@ -587,12 +587,34 @@ impl CompactThetaSketch {
         }
     }
 
+    fn check_theta(theta: u64) -> Result<(), Error> {
+        if theta == 0 || theta > MAX_THETA {
+            return Err(Error::deserial(format!(
+                "corrupted: theta must be in [1, {MAX_THETA}], got {theta}"
+            )));
+        }
+        Ok(())
+    }
+
+    /// An image flagged as ordered must hold strictly ascending entries: ordered sketches are
+    /// delta-encoded by `serialize_compressed`.
+    fn check_order(entries: &[u64], ordered: bool) -> Result<(), Error> {
+        if ordered && entries.windows(2).any(|pair| pair[0] >= pair[1]) {
+            return Err(Error::deserial(
+                "corrupted: entries of an ordered sketch are not ascending",
+            ));
+        }
+        Ok(())
+    }
+
     fn read_entries(
         cursor: &mut SketchSlice<'_>,
         num_entries: usize,
         theta: u64,
     ) -> Result<Vec<u64>, Error> {
-        let mut entries = Vec::with_capacity(num_entries);
+        Self::check_theta(theta)?;
+        // do not trust the count for the allocation: it is bounded by the input below
+        let mut entries = Vec::with_capacity(num_entries.min(1 << 16));
         for _ in 0..num_entries {
             let hash = cursor.read_u64_le().map_err(insufficient_data("entries"))?;
             if hash == 0 || hash >= theta {
@@ -631,6 +653,7 @@ impl CompactThetaSketch {
         }
 
         let entries = Self::read_entries(&mut cursor, num_entries, theta)?;
+        Self::check_order(&entries, true)?;
 
         Ok(Self {
             entries,
@@ -677,6 +700,7 @@ impl CompactThetaSketch {
                     .read_u32_le()
                     .map_err(insufficient_data("<unused_u32>"))?;
                 let entries = Self::read_entries(&mut cursor, num_entries, MAX_THETA)?;
+                Self::check_order(&entries, true)?;
                 Ok(Self {
                     entries,
                     theta: MAX_THETA,
@@ -699,6 +723,7 @@ impl CompactThetaSketch {
                     .map_err(insufficient_data("theta_long"))?;
                 let empty = (num_entries == 0) && (theta == MAX_THETA);
                 let entries = Self::read_entries(&mut cursor, num_entries, theta)?;
+                Self::check_order(&entries, true)?;
                 Ok(Self {
                     entries,
                     theta,
@@ -753,6 +778,7 @@ impl CompactThetaSketch {
             entries = Self::read_entries(&mut cursor, num_entries as usize, theta)?;
         }
         let ordered = (flags & serialization::FLAGS_IS_ORDERED) != 0;
+        Self::check_order(&entries, ordered)?;
         Ok(Self {
             entries,
             theta,
@@ -790,6 +816,13 @@ impl CompactThetaSketch {
             MAX_THETA
         };
 
+        Self::check_theta(theta)?;
+        if num_entries_bytes > 4 {
+            return Err(Error::deserial(format!(
+                "corrupted: num_entries_bytes must be at most 4, got {num_entries_bytes}"
+            )));
+        }
+
         // unpack num_entries
         let mut num_entries = 0usize;
         for i in 0..num_entries_bytes {
@@ -797,6 +830,16 @@ impl CompactThetaSketch {
                 .read_u8()
                 .map_err(insufficient_data("num_entries_byte"))?;
             num_entries |= (entry_count_byte as usize) << ((i as usize) << 3);
+        }
+
+        if num_entries > 0 && !(1..=63).contains(&entry_bits) {
+            return Err(Error::deserial(format!(
+                "corrupted: entry_bits must be in [1, 63], got {entry_bits}"
+            )));
+        }
+        // the packed deltas must be present before anything is allocated for them
+        if (num_entries * entry_bits as usize).div_ceil(8) > cursor.remaining() {
+            return Err(Error::insufficient_data("packed deltas"));
         }
 
         // unpack blocks of BLOCK_WIDTH deltas
@@ -828,11 +871,17 @@ impl CompactThetaSketch {
         }
 
         // undo deltas
-        let mut previous = 0;
+        let mut previous = 0u64;
         for e in &mut entries {
-            *e += previous;
+            // a zero delta would repeat an entry (or produce the reserved value 0)
+            if *e == 0 {
+                return Err(Error::deserial("corrupted: invalid retained hash value"));
+            }
+            *e = previous
+                .checked_add(*e)
+                .ok_or_else(|| Error::deserial("corrupted: invalid retained hash value"))?;
             previous = *e;
-            if *e == 0 || *e >= theta {
+            if *e >= theta {
                 return Err(Error::deserial("corrupted: invalid retained hash value"));
             }
         }
